@@ -100,6 +100,7 @@ def explainSep (pr : Params) (d : Drawing) (isTree : Bool) (sp : SepPair) : List
         let lab :=
           if align && isTree && adj.isSome then "sep~treeCentreAlign"
           else if align && (match adj with | some e => e.route.length ≥ 3 | none => false) then "sep~staleAlignBentEdge"
+          else if align && adj.isSome then "sep~staleAlignStraightEdge"
           else if c.st == .ineq && c.gt == .bdry && dimHolds pr.sepTol 0 c ps pt ws wt then "sep~bdryExtraGap"
           else "sepSatisfied"
         let kind := (if c.gt == .bdry then "BDRY" else "CENTRE") ++ (if c.st == .eq then " ==" else " >=")
